@@ -225,6 +225,69 @@ pub fn c11_type<T: KS>(out: &mut Out, rng0: &mut Rng, tier: &Tier) {
             );
         }
     }
+    // Kmer::get_extensions: one more route to a k-mer (all neighbours on one side at once).  Each returned k-mer must be
+    // the string extend() gives (C10) and compare / hash equal to that route's k-mer (seeded change C11-m9: a batch
+    // shift that leaves the old first base in an unused lane of a partial-width type)
+    for (idx, x) in pool.clone().iter().enumerate() {
+        if idx >= 12 {
+            break;
+        }
+        let xb = bases_of(x);
+        for dir in [debruijn::Dir::Left, debruijn::Dir::Right] {
+            let e = debruijn::Exts::new(match idx % 3 {
+                0 => 0xff,
+                1 => 0x5a,
+                _ => (rng.next() & 0xff) as u8,
+            });
+            let x2 = *x;
+            let got: Option<Vec<T>> = guard(move || x2.get_extensions(e, dir));
+            let bases_on_side = e.get(dir);
+            match got {
+                None => out.case("s.no_panic", l(vec![nu(k), nu(idx), nu(0)]), V::Bot),
+                Some(v) => {
+                    // same number of k-mers as extension bits on that side; matched by their entering base
+                    out.case("s.id", l(vec![nu(bases_on_side.len())]), nu(v.len()));
+                    for y in v.iter() {
+                        let entering = match dir {
+                            debruijn::Dir::Left => y.get(0),
+                            debruijn::Dir::Right => y.get(k - 1),
+                        };
+                        let reference = x.extend(entering, dir);
+                        let ord = match y.cmp(&reference) {
+                            std::cmp::Ordering::Less => 0u8,
+                            std::cmp::Ordering::Equal => 1,
+                            std::cmp::Ordering::Greater => 2,
+                        };
+                        out.nt = true;
+                        let op = match dir {
+                            debruijn::Dir::Left => "s.k.extend_left",
+                            debruijn::Dir::Right => "s.k.extend_right",
+                        };
+                        out.case(op, kv::<T>(vec![dna(&xb), n(entering)]), dna(&bases_of(y)));
+                        out.case(
+                            "s.k.cmp",
+                            kv::<T>(vec![dna(&bases_of(y)), dna(&bases_of(&reference))]),
+                            l(vec![b(*y == reference), n(ord), b(feed(y) == feed(&reference))]),
+                        );
+                        out.case("k.cmp", cfgv::<T>(vec![n(y.st()), n(reference.st())]), l(vec![b(*y == reference), n(ord)]));
+                    }
+                    // and every extension bit is represented
+                    let mut seen: Vec<u8> = v
+                        .iter()
+                        .map(|y| match dir {
+                            debruijn::Dir::Left => y.get(0),
+                            debruijn::Dir::Right => y.get(k - 1),
+                        })
+                        .collect();
+                    seen.sort();
+                    let mut want = bases_on_side.clone();
+                    want.sort();
+                    out.case("s.id", l(vec![bytes(&want)]), bytes(&seen));
+                }
+            }
+        }
+    }
+    out.nt = false;
     // collections: sort + dedup, binary search, perfect-hash lookup
     let rounds = if tier.thorough { 12 } else { 3 };
     for _ in 0..rounds {
